@@ -26,7 +26,7 @@ QUIRKS = {1: 'intdiv-mod-floor', 2: 'right$-zero-length', 3: 'loop-condition-bit
           11: 'double-overflow-gives-inf', 12: 'restore-rewinds-to-last-part',
           13: 'integral-variable-needs-integer-numeral'}
 ALLQ = sorted(QUIRKS)
-FUEL = 400000
+FUEL = 60000
 
 
 # ------------------------------------------------------------------ normal forms
@@ -169,6 +169,24 @@ class Runner:
                     cur[i] = trial[j]
         for i in alive:
             res[i] = cur[i]
+        # programs that all switches together do not explain (two defects can mask each
+        # other): try every single switch, then every pair
+        import itertools
+        rest = [i for i in range(n) if res[i] is None and mm[i] is not None]
+        cands = [[k] for k in ALLQ] + [list(c) for c in itertools.combinations(ALLQ, 2)]
+        for qs in cands:
+            if not rest:
+                break
+            mo = vlib.run_model(self.exe, [[1, progs[i]['sx'], qs, progs[i]['script']['lines'],
+                                            progs[i]['script']['rnd'], progs[i]['script']['timer'], FUEL]
+                                           for i in rest])
+            still = []
+            for j, i in enumerate(rest):
+                if not isinstance(mo[j], str) and differs(targets[i], norm_model(mo[j]), True) is None:
+                    res[i] = qs
+                else:
+                    still.append(i)
+            rest = still
         return res
 
 
@@ -279,12 +297,12 @@ def matrix_suite(ctx, rn, tier):
         risky = sorted(risky[:300])
     else:
         # every error case over the quick value set (so quick is a subset whatever
-        # the seed), and up to 5000 of the others, chosen by the seed
+        # the seed), and up to 1000 of the others, chosen by the seed
         rq = [c for c in risky if in_quick(c)]
         ro = [c for c in risky if not in_quick(c)]
         ctx.rng.shuffle(ro)
-        ctx.bump('matrix:error-cases-not-run(thorough cap)', max(0, len(ro) - 5000))
-        risky = sorted(rq + ro[:5000])
+        ctx.bump('matrix:error-cases-not-run(thorough cap)', max(0, len(ro) - 1000))
+        risky = sorted(rq + ro[:1000])
     progs = []
     bsz = 150
     for i in range(0, len(calm), bsz):
@@ -320,7 +338,7 @@ def matrix_suite(ctx, rn, tier):
         f'({"reduced set, 7 per type" if quick else "11-15 per type"}) + 7 string operators x 36 pairs + '
         f'NEG/NOT x 4 types: {ncases} expressions `PRINT a <op> b` with operands READ into typed '
         f'variables; {len(calm)} error-free ones batched {bsz} per program, {len(singles)} error '
-        f'cases one per program{" (300 of them, chosen by the seed)" if quick else " (all over the quick value set + up to 5000 others)"}; each program at the '
+        f'cases one per program{" (300 of them, chosen by the seed)" if quick else " (all over the quick value set + up to 1000 others)"}; each program at the '
         f'six configurations; non-trivial = distinct (operator, type pair)')
 
     def sig_single(p, name):
@@ -396,7 +414,7 @@ def matrix_suite(ctx, rn, tier):
 
 
 def random_suite(ctx, rn, tier, seed):
-    n = 150 if tier == 'quick' else 2000
+    n = 150 if tier == 'quick' else 500
     n = int(os.environ.get('C01_N', n))
     profiles = [
         ({}, 0.62),
